@@ -1627,12 +1627,6 @@ fn features(c0: &Case) -> Feat {
     }
     f
 }
-#[allow(dead_code)]
-fn nontrivial(c: &Case) -> bool {
-    let f = features(c);
-    f.alias + f.merge + f.whole + f.renamed + f.seq_idx > 0
-}
-
 // ------------------------------------------------------------------------------------------
 // generators
 
@@ -1897,10 +1891,10 @@ impl Property for C18 {
         let streams = vec![Ep::Multiple, Ep::SliceMultipleOpt, Ep::Read];
         let keys: &'static [&'static str] = &KEYS;
         let nt = |c: &Case| count_classes(&classes, c);
-        ctx.run_strategy("random-single", 1, ctx.tier.pick(9_000, 150_000), &case_s(singles, keys, vec![0, 6, 6, 20, 20, 100]), nt);
-        ctx.run_strategy("random-stream", 2, ctx.tier.pick(5_000, 80_000), &case_s(streams, keys, vec![0, 6, 20, 20, 50, 100]), nt);
+        ctx.run_strategy("random-single", 1, ctx.tier.pick(6_500, 150_000), &case_s(singles, keys, vec![0, 6, 6, 20, 20, 100]), nt);
+        ctx.run_strategy("random-stream", 2, ctx.tier.pick(3_600, 80_000), &case_s(streams, keys, vec![0, 6, 20, 20, 50, 100]), nt);
         let coll: &'static [&'static str] = &COLLIDE_KEYS;
-        ctx.run_strategy("random-colliding-keys", 3, ctx.tier.pick(3_000, 50_000), &case_s(EPS.to_vec(), coll, vec![30, 60, 100]), nt);
+        ctx.run_strategy("random-colliding-keys", 3, ctx.tier.pick(2_200, 50_000), &case_s(EPS.to_vec(), coll, vec![30, 60, 100]), nt);
         for (k, v) in classes.into_inner() {
             ctx.class_n(&k, v);
         }
